@@ -452,7 +452,10 @@ class Future<void> : detail::FutureBase<void> {
 template <class F, class... Args>
 inline Future<detail::ResultOf<F, Args...>> async(std::launch policy, F&& f, Args&&... args) {
   return Future<detail::ResultOf<F, Args...>>(
-      std::bind(std::forward<F>(f), std::forward<Args>(args)...), globalThreadPool(), policy);
+      std::bind(std::forward<F>(f), std::forward<Args>(args)...),
+      globalThreadPool(),
+      policy,
+      policy);
 }
 
 /**
@@ -481,7 +484,7 @@ template <class F, class... Args>
 inline Future<detail::ResultOf<F, Args...>>
 async(ThreadPool& pool, std::launch policy, F&& f, Args&&... args) {
   return Future<detail::ResultOf<F, Args...>>(
-      std::bind(std::forward<F>(f), std::forward<Args>(args)...), pool, policy);
+      std::bind(std::forward<F>(f), std::forward<Args>(args)...), pool, policy, policy);
 }
 
 /**
@@ -512,7 +515,7 @@ template <class F, class... Args>
 inline Future<detail::ResultOf<F, Args...>>
 async(TaskSet& tasks, std::launch policy, F&& f, Args&&... args) {
   return Future<detail::ResultOf<F, Args...>>(
-      std::bind(std::forward<F>(f), std::forward<Args>(args)...), tasks, policy);
+      std::bind(std::forward<F>(f), std::forward<Args>(args)...), tasks, policy, policy);
 }
 
 /**
@@ -543,7 +546,7 @@ template <class F, class... Args>
 inline Future<detail::ResultOf<F, Args...>>
 async(ConcurrentTaskSet& tasks, std::launch policy, F&& f, Args&&... args) {
   return Future<detail::ResultOf<F, Args...>>(
-      std::bind(std::forward<F>(f), std::forward<Args>(args)...), tasks, policy);
+      std::bind(std::forward<F>(f), std::forward<Args>(args)...), tasks, policy, policy);
 }
 
 /**
@@ -574,7 +577,7 @@ template <class F, class... Args>
 inline Future<detail::ResultOf<F, Args...>>
 async(NewThreadInvoker sched, std::launch policy, F&& f, Args&&... args) {
   return Future<detail::ResultOf<F, Args...>>(
-      std::bind(std::forward<F>(f), std::forward<Args>(args)...), sched, policy);
+      std::bind(std::forward<F>(f), std::forward<Args>(args)...), sched, policy, policy);
 }
 
 /**
